@@ -1679,7 +1679,19 @@ class Summaries:
                             ln = None
                         nc = CollV(kind, rty, next(_c), length=ln, elem=y, prov=('collect', c.prov, tuple(o[0] for o in it.ops)))
                         fl = [o for o in it.ops if o[0] == 'filter']
-                        if kind in ('set', 'vec') and len(fl) == 1 and all(o[0] in ('filter', 'cloned') for o in it.ops) and c.kind in ('set', 'map'):
+
+                        def deref_map(o):
+                            # `.map(|x| *x)`: the same as `.copied()`
+                            if o[0] != 'map' or not isinstance(o[1], ClosureV):
+                                return False
+                            s9 = st.fork()
+                            pv = eng.fresh_num(s9, 'u32', name='probe')
+                            try:
+                                rs9 = eng.call_value(s9, o[1], [mkref(s9, pv)], ctx.depth, ctx.fr, ctx.bi)
+                            except Exception:
+                                return False
+                            return bool(rs9) and all(isinstance(r9, NumV) and r9.key() == pv.key() for (_s, r9) in rs9)
+                        if kind in ('set', 'vec') and len(fl) == 1 and all(o[0] in ('filter', 'cloned') or deref_map(o) for o in it.ops) and c.kind in ('set', 'map'):
                             # x in collect(filter(p, src))  <=>  x in src and p(x)    (src a set, or the keys of a map)
                             if kind == 'set' or mode in ('keys', 'ref', 'val'):
                                 s2.vn[('filtered', nc.cid)] = (c.key(), freeze_closure(s2, fl[0][1]), 2, nc.ver)
@@ -2760,6 +2772,20 @@ class Summaries:
             if isinstance(r, RefV):
                 eng.write(ctx.st, r.path, nv)
             return UNIT
+
+        @reg('<std::string::String as std::ops::AddAssign<&str>>::add_assign')
+        def _(ctx):
+            # `s += t` is `s.push_str(t)`
+            c2 = type(ctx)(ctx.eng, ctx.st, ctx.fr, ctx.bi, ctx.t, ctx.fn, 'std::string::String::push_str', ctx.args, ctx.depth)
+            return self.table['std::string::String::push_str'](c2)
+
+        @reg('<T as std::borrow::ToOwned>::to_owned')
+        def _(ctx):
+            # the blanket impl (`T: Clone`): a copy of the value; for text the same text
+            v = deref(ctx, ctx.args[0])
+            if isinstance(v, (StrV, NumV, BoolV, CharV)):
+                return v
+            return self.total(ctx)[0][1]
 
         @reg('<std::string::String as std::ops::Add<&str>>::add')
         def _(ctx):
